@@ -176,6 +176,33 @@ def roundtrip(E, R, ncmd):
     return tuple(kinds)
 
 
+def after_refusal(E, R, pos):
+    """a script that is refused (an element over 520 bytes at position pos, after pos valid commands) leaves nothing
+    behind: the next script -- on the same or another Script object -- serialises to exactly its own bytes"""
+    op = E.bv("op", 8)
+    E.assume((op == 0) | (op >= 78))
+    small = E.bytes("small", 3)
+    big = E.bytes("big", 521)
+    bad = [op, small][:pos] + [big]
+    r = E.run(lambda: R.script.Script(list(bad)).raw_serialize())
+    E.check(isinstance(r, Raised), "element over 520 bytes refused (after valid commands)")
+    el = E.bytes("el", 2)
+    good = R.script.Script([el, op])
+    g = E.run(good.raw_serialize)
+    if isinstance(g, Raised):
+        E.fail("a valid script serialises after another one was refused")
+        return "raised"
+    E.check_eq(g, b"\x02" + el + bytes_of(op), "a valid script serialises to its own bytes after another one was refused")
+    g2 = E.run(good.serialize)
+    E.check_eq(g2 if isinstance(g2, Raised) else g2, b"\x04\x02" + el + bytes_of(op), "serialize() after a refusal: CompactSize(len) + raw")
+    return "ok"
+
+
+def bytes_of(op):
+    from sx.values import SxBytes
+    return bytes([op]) if isinstance(op, int) else SxBytes([op])
+
+
 def truncation(E, R, ncmd, kinds):
     kinds = [kinds[E.choose("kind%d" % j, 0, len(kinds) - 1)] for j in range(ncmd)]
     cmds = _mk_cmds(E, kinds)
@@ -273,6 +300,9 @@ def cases(tier):
         cs.append(Case("push[%d..%d]" % (lo, min(lo + step - 1, 521)), "push_forms",
                        dict(lo=lo, hi=min(lo + step - 1, 521)), need=("standard minimal push form",) if lo < 500 else ()))
     cs.append(Case("push[521..523]", "push_forms", dict(lo=521, hi=523), need=("element over 520 bytes refused",)))
+    for pos in (0, 1, 2):
+        cs.append(Case("after_refusal[%d]" % pos, "after_refusal", dict(pos=pos),
+                       need=("a valid script serialises to its own bytes after another one was refused",)))
     for k in range(1, 4 if tier == "quick" else 5):
         cs.append(Case("roundtrip[%d]" % k, "roundtrip", dict(ncmd=k), need=("parse(serialize(S)) == S",), weight=k * 3))
     allk = list(range(len(ELEM_LENS) + 1))
